@@ -213,6 +213,23 @@ pub fn exec(prop: &str, case: &Case) -> Outcome {
                 detail: serde_json::json!({"target_delta": dc.target, "measured_delta": run.intr, "file_bytes": run.bytes}),
             }
         }
+        ("C07", Case::Long(lc)) => {
+            let run = crate::multi::run_long(lc);
+            Outcome {
+                digest: run.digest,
+                nontrivial: true,
+                violation: run.violation,
+                explicit: case.clone(),
+                tags: vec![
+                    ("probe.c07_long_build_interrupted_before_every_write", 1),
+                    ("sink.interrupted", run.interrupted),
+                    ("sink.short_write", run.shorts),
+                    ("sink.full_write", run.write_calls - run.interrupted - run.shorts),
+                ],
+                steps: lc.n + run.write_calls,
+                detail: serde_json::json!({"keys": lc.n, "interrupted_returns_in_this_one_build": run.interrupted, "write_calls": run.write_calls, "bytes": run.bytes}),
+            }
+        }
         ("C15", Case::Epoch(ec)) => {
             let run = crate::multi::run_epoch(ec);
             Outcome {
